@@ -12,7 +12,7 @@
     persist, exits and closes of drop, call-site registrations of the restored receiver). *)
 From TT Require Import Tunnel.TypesProofs Tunnel.ReceiverSpec Tunnel.ReceiverInv Tunnel.ReceiverHistInv
   Tunnel.ReceiverTrack Tunnel.ReceiverOrder Tunnel.ReceiverOrderProofs Tunnel.ReceiverRestoreOrder
-  Tunnel.ReceiverRestoreOrderProofs Judge.C08 Judge.RecvProofs.
+  Tunnel.ReceiverRestoreOrderProofs Judge.C08 Judge.RecvProofs Judge.RecvOk Judge.RecvOkOfCorr.
 From stdpp Require Import gmap.
 Open Scope N_scope.
 
@@ -217,6 +217,19 @@ Proof. exact hist_scope_b_spec. Qed.
 (** the executable statement [ok_c08] holds of the model's own observations on every history in
     scope; on a correspondence case the implementation's observations equal the model's
     ([corr_history]), so [PropFail] without [Mismatch] cannot happen *)
+(** whenever the judge finds model and implementation equal on a history in scope, the
+    implementation's own observations satisfy both executable statements ([ok_c08]: ids valid against
+    the snapshots; [refs_ok]: handle counts recomputed from the history): a [PropFail] without a
+    [Mismatch] is impossible *)
+Theorem C08_judge_ok_whenever_corr : forall steps impl,
+  hist_scope hist_init steps -> corr_history steps impl = true ->
+  ok_c08 steps impl && refs_ok steps impl = true.
+Proof. exact judge_c08_ok_of_corr. Qed.
+
+Theorem C08_judge_agrees_whenever_corr : forall steps impl,
+  hist_scope hist_init steps -> corr_history steps impl = true -> judge_c08 steps impl = Agree.
+Proof. exact judge_c08_agree_of_corr. Qed.
+
 Theorem C08_judge_ok_on_model : forall steps,
   hist_scope hist_init steps -> ok_c08 steps (map iobs_of (hist_run hist_init steps)) = true.
 Proof. exact ok_c08_model. Qed.
